@@ -34,7 +34,7 @@ class C01(Harness):
     outside = ("series longer than the stated n", "in-sample horizons for splitters", "datetime / period indices")
 
     def bounds(self, tier):
-        return {"n_max": 8 if tier == "quick" else 12, "fh_steps": [1, 2] if tier == "quick" else [1, 2, 3], "cutoffs": [1, 2] if tier == "quick" else [1, 2, 3]}
+        return {"window_step_initial_window": "1..n_max+3 (symbolic)", "n_max": 8 if tier == "quick" else 12, "fh_steps": [1, 2] if tier == "quick" else [1, 2, 3], "cutoffs": [1, 2] if tier == "quick" else [1, 2, 3]}
 
     def cells(self, tier):
         b = self.bounds(tier)
@@ -85,11 +85,13 @@ class C01(Harness):
         if kind in ("sliding", "expanding", "sliding_iw"):
             inp["wl"] = ctx.fresh_int("wl")
             inp["sl"] = ctx.fresh_int("sl")
-            ctx.assume(inp["wl"] >= 1)
-            ctx.assume(inp["sl"] >= 1)
+            # upper bounds only keep the exploration finite when a (mutated) feasibility check lets an oversized
+            # window through; on the unchanged code every value above n is rejected on one symbolic path
+            ctx.assume((inp["wl"] >= 1) & (inp["wl"] <= N + 3))
+            ctx.assume((inp["sl"] >= 1) & (inp["sl"] <= N + 3))
             if kind == "sliding_iw":
                 inp["iw"] = ctx.fresh_int("iw")
-                ctx.assume(inp["iw"] > inp["wl"])
+                ctx.assume((inp["iw"] > inp["wl"]) & (inp["iw"] <= N + 4))
                 inp["sww"] = True
             else:
                 inp["sww"] = bool(ctx.fresh_bool("sww"))
